@@ -165,4 +165,32 @@ theorem dispatch_answer_eq {q : Party} {s0 : Sent} {l : Nat} {msg : Msg} (wf : W
     simp only [hf0, Bool.not_false, if_true, Bool.false_eq_true, if_false]
     rfl
 
+theorem dispatch_retrieve_eq {q : Party} {s0 : Sent} {l : Nat} {msg : Msg} (wf : WF q msg)
+    (ha : msg.action = lRetrieve) :
+    (dispatch H T q s0 l msg).party = q ∧ (dispatch H T q s0 l msg).out = .idle ∧
+    ∃ x : Msg, (dispatch H T q s0 l msg).sent = s0 ++ [(l, x)] ∧
+      (x.action = lDeliver ∨ x.action = lFail) := by
+  obtain ⟨q', s, o, hD, hEq⟩ := dispatch_cases H T q s0 l msg
+  have hne : ∀ a : Int, a ≠ lRetrieve → msg.action ≠ a := by
+    intro a h1 h2; exact h1 (h2.symm.trans ha)
+  obtain ⟨h1, h2⟩ := wf_checks wf
+  have h3 : ¬(msg.action < rSend ∨ msg.action > lDeliver) := by rw [ha]; decide
+  unfold dispatch
+  simp only []
+  rw [if_neg h1, if_neg h2, if_neg h3, if_neg (hne rSend (by decide)), if_neg (hne rEcho (by decide)),
+    if_neg (hne rReady (by decide)), if_neg (hne rRequest (by decide)),
+    if_neg (hne rAnswer (by decide)), if_pos ha]
+  split
+  · split_ifs
+    · exact ⟨rfl, rfl, _, rfl, Or.inl rfl⟩
+    · exact ⟨rfl, rfl, _, rfl, Or.inr rfl⟩
+  · exact ⟨rfl, rfl, _, rfl, Or.inr rfl⟩
+
+theorem dispatch_badact {q : Party} {s0 : Sent} {l : Nat} {msg : Msg}
+    (ha : msg.action < rSend ∨ msg.action > lDeliver) :
+    dispatch H T q s0 l msg = ⟨q, s0 ++ [], .idle⟩ := by
+  unfold dispatch
+  simp only []
+  split_ifs <;> rfl
+
 end Tmcg.Rbc
